@@ -113,6 +113,19 @@ func c07Trees(quick bool, blk int64) []*treeSpec {
 			frag.Files[fmt.Sprintf("f%d/file-%04d", i%2, i)] = append([]byte(fmt.Sprintf("file-%04d|", i)), sqContent(fmt.Sprint("fr", i), b/2+52)...)
 		}
 		trees = append(trees, frag)
+		// exactly 512 and 1024 fragment blocks: the fragment table's index fills whole metadata blocks (512 entries each)
+		if b == 4096 {
+			for _, n := range []int{512, 1024} {
+				if quick && n != 512 {
+					continue
+				}
+				ff := &treeSpec{Files: map[string][]byte{}}
+				for i := 0; i < n; i++ {
+					ff.Files[fmt.Sprintf("x%04d", i)] = sqContent(fmt.Sprint("fx", i), b/2+60)
+				}
+				trees = append(trees, ff)
+			}
+		}
 	}
 	// many directories: the directory table itself spans several metadata blocks, so most directories (and nested ones)
 	// start in a later block; and many symlinks with targets of every length 1..240 so that some target straddles an
@@ -461,7 +474,7 @@ func C07(r *ev.Run) {
 	r.Set("evaluations", int64(done))
 	r.Set("distinct_nontrivial", int64(ok.n()))
 	r.Set("distinct_outcomes", outcomes.snapshot())
-	r.Set("rule", "trees: every ordered forest with <= 4 nodes (quick: 3) and height <= 3 x name rotations x size rotations over {0,1,blk-1,blk,blk+1,2blk+17} with zero-run / compressible / incompressible contents chosen per path; plus symlink variants, a file mixing compressible and incompressible full blocks, 2000 entries in one directory, 530 files with fragment tails (> 512 fragment blocks), 48 directories x 14 long names with nested sub-directories (directory table of several metadata blocks), 720 symlinks with targets of every length 3..245 (targets straddling inode metadata blocks), 900 files of one to three full blocks (inodes with block lists straddling inode metadata blocks at many alignments), a sparse file; x compressor {default, gzip level 9, xz, lz4, zstd} x fragments on/off x NoCompress{Inodes,Data,Fragments}/NoPad variants x block size {4 KiB, 128 KiB, 1 MiB} x read cache {default, 0, one block} x start {0, 1 MiB}; non-trivial = distinct (tree, options) pairs that Finalize accepted and that were read back and compared entry by entry, with the superblock checked against the device write log")
+	r.Set("rule", "trees: every ordered forest with <= 4 nodes (quick: 3) and height <= 3 x name rotations x size rotations over {0,1,blk-1,blk,blk+1,2blk+17} with zero-run / compressible / incompressible contents chosen per path; plus symlink variants, a file mixing compressible and incompressible full blocks, 2000 entries in one directory, 530 files with fragment tails (> 512 fragment blocks), trees of exactly 512 and 1024 fragment blocks, 48 directories x 14 long names with nested sub-directories (directory table of several metadata blocks), 720 symlinks with targets of every length 3..245 (targets straddling inode metadata blocks), 900 files of one to three full blocks (inodes with block lists straddling inode metadata blocks at many alignments), a sparse file; x compressor {default, gzip level 9, xz, lz4, zstd} x fragments on/off x NoCompress{Inodes,Data,Fragments}/NoPad variants x block size {4 KiB, 128 KiB, 1 MiB} x read cache {default, 0, one block} x start {0, 1 MiB}; non-trivial = distinct (tree, options) pairs that Finalize accepted and that were read back and compared entry by entry, with the superblock checked against the device write log")
 	r.Set("exhaustive", done == len(cases))
 	r.Assume("the same tree compared against the source under every option set makes the views identical across option sets (differential oracle)")
 }
